@@ -77,7 +77,7 @@ def main():
             rec['valid'] = bool(rec.get('applies') and rec.get('tests_green_with_change') and rec.get('demo_passes_without') and rec.get('demo_fails_with'))
             caught = []
             for c in checks:
-                e = dict(os.environ, VERIF_REPO=wt, VERIF_SEED=os.environ.get('VERIF_SEED', '1'))
+                e = dict(os.environ, VERIF_REPO=wt, VERIF_SEED=os.environ.get('VERIF_SEED', '1'), VERIF_OUT_DIR=wt + '-out')
                 rc, out = sh(['python3', os.path.join(V, 'tools', 'vp.py'), 'check', c, '--tier', tier], cwd=V, env=e)
                 sites = sorted(set(re.findall(r'site=([^ ]+?):? ', out)))
                 rec['ran'].append({'check': c, 'tier': tier, 'exit': rc, 'sites': sites[:12]})
@@ -87,8 +87,7 @@ def main():
         finally:
             sh(['git', '-C', '/repo', 'worktree', 'remove', '--force', wt])
             shutil.rmtree(wt, ignore_errors=True)
-        # restore evidence files of /verif (the runs above rewrote them against a mutated tree)
-        sh(['git', 'checkout', '--', 'evidence'], cwd=V)
+            shutil.rmtree(wt + '-out', ignore_errors=True)
         d = os.path.join(V, 'seeded', '%s-%s%d' % (prop, os.environ.get('SEED_TAG', ''), i))
         os.makedirs(d, exist_ok=True)
         shutil.copy(patch, os.path.join(d, 'patch.diff'))
